@@ -129,6 +129,15 @@ func (srv *Server) handleChannel(ctx context.Context, c *ServerChannel) {
 
 	if err != nil {
 		log.Printf("server: establish: %v\n", err)
+		// release the connection of a handshake that did not complete
+		_ = c.Close()
+		return
+	}
+
+	if c.State() != SessionStateEstablished {
+		// the session was refused (failed): it never was established, so there is
+		// nothing to announce; just make sure the connection is released
+		_ = c.Close()
 		return
 	}
 
